@@ -1,7 +1,161 @@
-//! C02 — not built yet.
-use crate::report::Tier;
+//! C02 — commit and rollback are all-or-nothing.
+//! (1) the deterministic cell matrix for the transaction endings (rollback, dropped session,
+//! failed commit via the `txmgr.commit` fail point, successful commit), every read path, both
+//! epoch regimes; (2) seeded multi-mutation transactions judged per write by a probe read:
+//! after an aborting ending no write may survive, after a commit none may be lost.
+use crate::hooks;
+use crate::report::{Report, Tier};
+use crate::rng::{Rng, hash_str};
+use crate::txm::{self, Regime, Sc, W};
+use serde_json::json;
+use std::sync::atomic::Ordering;
 
-pub fn run(_tier: Tier, _seed: u64) -> ! {
-    println!("INCONCLUSIVE property=C02 reason=monitor not built yet");
-    std::process::exit(2)
+/// Is the effect of write `w` visible to the reader? A targeted question that no other write
+/// of INDEPENDENT influences. None = the probe itself failed (error / unexpected shape).
+fn visible(w: W, s: &grafeo_engine::Session, fx: &txm::Fixture) -> Option<bool> {
+    let rows = |q: &str| -> Option<Vec<Vec<grafeo_common::types::Value>>> {
+        match crate::util::catch(|| s.execute(q)) {
+            Ok(Ok(r)) => Some(r.iter().cloned().collect()),
+            _ => None,
+        }
+    };
+    let sparql_rows = |q: &str| -> Option<usize> {
+        match crate::util::catch(|| s.execute_sparql(q)) {
+            Ok(Ok(r)) => Some(r.row_count()),
+            _ => None,
+        }
+    };
+    use grafeo_common::types::Value;
+    match w {
+        W::InsertNodeGql => rows("MATCH (n:P {uid: 100}) RETURN n.uid").map(|r| !r.is_empty()),
+        W::CreateNodeApi => fx.node_id.get(&101).map(|id| s.get_node(*id).is_some()),
+        W::DeleteNode => rows("MATCH (n:P {uid: 4}) RETURN n.uid").map(|r| r.is_empty()),
+        W::DetachDelete => rows("MATCH (n:P {uid: 2}) RETURN n.uid").map(|r| r.is_empty()),
+        W::CreateEdgeGql => rows("MATCH (a:P {uid: 1})-[r:R]->(b:P {uid: 3}) RETURN a.uid").map(|r| !r.is_empty()),
+        W::CreateEdgeApi => fx.edge_id.get(&txm::UID_EDGE_API).map(|id| s.get_edge(*id).is_some()),
+        W::DeleteEdge => rows("MATCH (a:P {uid: 1})-[r:R]->(b:P {uid: 2}) RETURN a.uid").map(|r| r.is_empty()),
+        W::SetNodeProp => rows("MATCH (n:P {uid: 1}) RETURN n.v").and_then(|r| r.first().map(|x| x[0] == Value::Int64(777))),
+        W::RemoveNodeProp => rows("MATCH (n:P {uid: 2}) RETURN n.v").and_then(|r| r.first().map(|x| x[0] == Value::Null)),
+        W::SetEdgeProp => rows("MATCH (a:P {uid: 1})-[r:R]->(b:P {uid: 2}) RETURN r.w").and_then(|r| r.first().map(|x| x[0] == Value::Int64(5))),
+        W::AddLabel => rows("MATCH (n:Q {uid: 1}) RETURN n.uid").map(|r| !r.is_empty()),
+        W::RemoveLabel => rows("MATCH (n:Q {uid: 3}) RETURN n.uid").map(|r| r.is_empty()),
+        W::MergeCreate => rows("MATCH (n:P {uid: 300}) RETURN n.uid").map(|r| !r.is_empty()),
+        W::SetIndexedProp => Some(s.get_node_property(fx.node_id[&1], "iv") == Some(Value::Int64(777))),
+        W::CypherCreate => rows("MATCH (n:P {uid: 102}) RETURN n.uid").map(|r| !r.is_empty()),
+        W::SparqlInsert => sparql_rows("SELECT ?o WHERE { <http://s2> <http://p> ?o }").map(|n| n > 0),
+        W::SparqlDelete => sparql_rows("SELECT ?o WHERE { <http://s1> <http://p> ?o }").map(|n| n == 0),
+    }
+}
+
+/// writes whose effects are independent of each other (so that a multi-write transaction has
+/// a well-defined per-write probe)
+const INDEPENDENT: &[W] = &[
+    W::InsertNodeGql, W::CreateNodeApi, W::DeleteNode, W::CreateEdgeGql, W::CreateEdgeApi, W::SetNodeProp,
+    W::RemoveNodeProp, W::AddLabel, W::RemoveLabel, W::MergeCreate, W::SetIndexedProp, W::CypherCreate,
+    W::SparqlInsert, W::SparqlDelete,
+];
+
+#[derive(Clone, Copy, Debug)]
+enum Ending {
+    Commit,
+    Rollback,
+    Drop,
+    FailedCommit,
+}
+
+fn multi(rep: &mut Report, seed: u64, case: u64) {
+    let mut rng = Rng::new(seed, "C02.multi", case);
+    let regime = if rng.chance(0.5) { Regime::Fresh } else { Regime::AfterCommit };
+    let ending = *rng.pick(&[Ending::Commit, Ending::Rollback, Ending::Drop, Ending::FailedCommit]);
+    let mut ws: Vec<W> = INDEPENDENT.to_vec();
+    rng.shuffle(&mut ws);
+    ws.truncate(2 + rng.below(6));
+    let mut fx = txm::fixture(regime);
+    let mut s = fx.db.session();
+    if s.begin_tx().is_err() {
+        rep.inconclusive("begin_tx failed in multi");
+        return;
+    }
+    let mut applied = Vec::new();
+    for w in &ws {
+        if w.apply(&s, &mut fx).is_ok() {
+            applied.push(*w);
+        }
+    }
+    let committed = match ending {
+        Ending::Commit => s.commit().is_ok(),
+        Ending::Rollback => {
+            let _ = s.rollback();
+            false
+        }
+        Ending::Drop => {
+            drop(s);
+            s = fx.db.session();
+            false
+        }
+        Ending::FailedCommit => {
+            hooks::FAIL_COMMIT.store(true, Ordering::SeqCst);
+            let r = s.commit();
+            hooks::FAIL_COMMIT.store(false, Ordering::SeqCst);
+            if r.is_ok() {
+                rep.deviation("multi:failed_commit_returned_ok", json!({}));
+            }
+            false
+        }
+    };
+    drop(s);
+    let mut reader = fx.db.session();
+    let in_tx = rng.chance(0.5);
+    if in_tx {
+        let _ = reader.begin_tx();
+    }
+    rep.eval();
+    rep.count(&format!("multi.ending.{ending:?}"), 1);
+    // per write: is its effect visible to a later observer?
+    let mut visible_now = Vec::new();
+    for w in &applied {
+        visible_now.push((*w, visible(*w, &reader, &fx)));
+    }
+    let kinds: std::collections::BTreeSet<&str> = applied.iter().map(|w| w.name()).collect();
+    if applied.len() >= 2 && kinds.len() >= 2 {
+        rep.nontrivial(hash_str(&format!("{:?}{:?}{}", applied, ending, regime.name())));
+    }
+    if case < 3 {
+        rep.sample(json!({"multi_case": case, "regime": regime.name(), "ending": format!("{ending:?}"), "writes": applied.iter().map(|w| w.name()).collect::<Vec<_>>(),
+            "visible_afterwards": visible_now.iter().map(|(w, s)| (w.name().to_string(), format!("{s:?}"))).collect::<Vec<_>>()}));
+    }
+    for (w, shows) in &visible_now {
+        let outcome = match shows {
+            Some(x) if *x == committed => continue,
+            Some(true) => "survived",
+            Some(false) => "lost",
+            None => "probe_failed",
+        };
+        rep.deviation(
+            &format!("multi:{}|{:?}|{}={}", w.name(), ending, regime.name(), outcome),
+            json!({"write": w.name(), "ending": format!("{ending:?}"), "regime": regime.name(), "transaction": applied.iter().map(|w| w.name()).collect::<Vec<_>>(), "reader_in_tx": in_tx}),
+        );
+    }
+    // atomicity as such: a transaction must not end up partially visible
+    let n_true = visible_now.iter().filter(|v| v.1 == Some(true)).count();
+    let n_false = visible_now.iter().filter(|v| v.1 == Some(false)).count();
+    if n_true > 0 && n_false > 0 {
+        rep.count("multi.partially_visible_transactions", 1);
+    }
+}
+
+pub fn run(tier: Tier, seed: u64) -> ! {
+    let mut rep = Report::new("C02", tier, seed, "exploration");
+    rep.rule = "(1) complete enumeration of cells (17 write kinds) x (26 read paths) x (endings: rollback [3 observers], dropped session [2], failed commit through the txmgr.commit fail point [3], successful commit [2 + 1 after an unrelated commit]) x (2 epoch regimes), oracle = reference model state the observer is entitled to; (2) seeded random transactions of 2-7 independent mutations of different kinds ended by commit / rollback / drop / failed commit, each write judged by its probe read from a later observer (in or outside a transaction): after an abort no write may survive, after a commit none may be lost, and the number of partially visible transactions is counted. non-trivial = relevant cell (answer differs with/without the write) resp. transaction with >= 2 applied writes of >= 2 kinds".into();
+    let fail = |on: bool| hooks::FAIL_COMMIT.store(on, Ordering::SeqCst);
+    txm::run_matrix(&mut rep, &[Sc::Rollback, Sc::Drop, Sc::FailedCommit, Sc::CommittedBefore, Sc::UnrelatedCommit], &fail);
+    let n = tier.pick(600, 40_000);
+    for case in 0..n {
+        multi(&mut rep, seed, case);
+    }
+    rep.assumptions = vec![
+        "a commit that reports an error is produced with the txmgr.commit fail point (query operators never register writes, so no natural conflict can occur through a session)".into(),
+        "observers run on the same thread after the ending".into(),
+    ];
+    rep.finish()
 }
